@@ -1009,6 +1009,8 @@ func TestC11(t *testing.T) {
 	e.querySweep()
 	e.authorityCases()
 	e.wrappedSweep()
+	e.nestedTriggerSweep()
+	e.commitHistories()
 	_ = sdkmath.ZeroInt
 	e.w.Flush(t)
 }
